@@ -106,3 +106,24 @@ N('c01-n-guard-flip', 'C01', IDX, "        if matches.size > 0:\n            mat
   "        if matches.size == 0:\n            raise IndexError(\"Element not found in axis: {}\".format(repr(val)))\n        match = matches[0]", 'early raise form')
 N('c01-n-tol-flip', 'C01', IDX, "        if dist[match] > tol:", "        if tol < dist[match]:", 'operands swapped')
 N('c01-n-loc-helper-var', 'C01', BASES, "                ix = self.axes[dim].loc(lix, tol=tol)", "                the_axis = self.axes[dim]\n                ix = the_axis.loc(lix, tol=tol)", 'temporary variable')
+
+# ------------------------------------------------------------------------------- C03
+B('c03-copy-dropped', 'C03', BASES, "        if not inplace:\n            self = self.copy()\n\n        # special-case: full-shape boolean indexing (will fail with netCDF4)\n        if self._is_boolean_index_nd(indices):\n            self._setvalues_bool", "        if not inplace:\n            self = self\n\n        # special-case: full-shape boolean indexing (will fail with netCDF4)\n        if self._is_boolean_index_nd(indices):\n            self._setvalues_bool", 'put(inplace=False) writes into the original')
+B('c03-shallow-copy', ['C03', 'C15'], BASES, "        if not inplace:\n            self = self.copy()\n\n        # special-case: full-shape boolean indexing (will fail with netCDF4)\n        if self._is_boolean_index_nd(indices):\n            self._setvalues_bool", "        if not inplace:\n            self = self.copy(shallow=True)\n\n        # special-case: full-shape boolean indexing (will fail with netCDF4)\n        if self._is_boolean_index_nd(indices):\n            self._setvalues_bool", 'shallow copy shares the buffer')
+B('c03-copy-after-write', 'C03', BASES, "            if broadcast:\n                self._setvalues_broadcast(idx, values, cast=cast)\n            else:\n                self._setvalues_ortho(idx, values, cast=cast)\n\n        if not inplace:\n            return self", "            if broadcast:\n                self._setvalues_broadcast(idx, values, cast=cast)\n            else:\n                self._setvalues_ortho(idx, values, cast=cast)\n\n        if not inplace:\n            return self.copy()", 'returns a copy but wrote the original?')
+B('c03-returns-none', 'C03', BASES, "        if not inplace:\n            return self\n\n    __getitem__ = _getitem", "        if not inplace:\n            return None\n\n    __getitem__ = _getitem", '')
+B('c03-cast-ignored', 'C03', CLS, "    def _setvalues_ortho(self, indices, newvalues, cast=False):\n        if cast:\n            self._values = _maybe_cast_type(self._values, newvalues)", "    def _setvalues_ortho(self, indices, newvalues, cast=False):\n        if cast and False:\n            self._values = _maybe_cast_type(self._values, newvalues)", 'cast ignored in the ortho writer')
+B('c03-cast-after-store', 'C03', CLS, "        if cast:\n            self._values = _maybe_cast_type(self._values, newvalues)\n        ix = orthogonal_indexer(indices, self.shape)\n        self.values[ix] = newvalues", "        ix = orthogonal_indexer(indices, self.shape)\n        self.values[ix] = newvalues\n        if cast:\n            self._values = _maybe_cast_type(self._values, newvalues)", 'widening after the store')
+B('c03-cast-not-forwarded', 'C03', BASES, "                self._setvalues_ortho(idx, values, cast=cast)", "                self._setvalues_ortho(idx, values)", 'cast option dropped')
+B('c03-write-indexer', 'C03', CLS, "        ix = orthogonal_indexer(indices, self.shape)\n        self.values[ix] = newvalues", "        self.values[indices] = newvalues", 'write path uses numpy fancy indexing, read path orthogonal')
+B('c03-setitem-tol', 'C03', BASES, "            idx = self._get_indices(indices, tol=tol, indexing=indexing, axis=axis)", "            idx = self._get_indices(indices, indexing=indexing, axis=axis)", 'tolerance not honoured on writes')
+B('c03-setitem-indexing', 'C03', BASES, "            idx = self._get_indices(indices, tol=tol, indexing=indexing, axis=axis)", "            idx = self._get_indices(indices, tol=tol, axis=axis)", '.ix[...] = v writes by label')
+B('c03-widen-i-f', 'C03', IDX, "    elif values.dtype.kind == 'i' and dtype.kind == 'f':\n        values = np.asarray(values, dtype=float)", "    elif values.dtype.kind == 'i' and dtype.kind == 'f':\n        pass", 'float into int array truncates')
+B('c03-widen-f-into-anything', 'C03', IDX, "    elif values.dtype.kind == 'f' and dtype.kind == 'i':", "    elif values.dtype.kind == 'f':", 'strings assigned to float arrays')
+B('c03-widen-object-last', 'C03', IDX, "    else:\n        values = np.asarray(values, dtype=object)\n\n    return values", "    else:\n        values = np.asarray(values, dtype=float)\n\n    return values", 'fallback no longer object')
+B('c03-fillna-nocast', 'C03', MISS, "return self.put(_isnan(self.values, na=na), value, cast=True, inplace=inplace)", "return self.put(_isnan(self.values, na=na), value, inplace=inplace)", '')
+B('c03-setna-nocast', ['C03', 'C17'], MISS, "return self.put(_matches(self.values, value), na, cast=True, inplace=inplace)", "return self.put(_matches(self.values, value), na, inplace=inplace)", 'setna on int data fails/truncates')
+B('c03-values-setter-rebinding', 'C03', CLS, "        self._values = _maybe_cast_type(self._values, newvalues)\n        self._values[:] = newvalues", "        self._values = np.asarray(newvalues)", 'values setter no longer checks shape / writes in place')
+B('c03-bool-writer-axes', 'C03', CLS, "        self.values[mask] = newvalues # the default for a numpy array", "        self.values[mask] = newvalues # the default for a numpy array\n        self._attrs = {}", 'writer clears metadata')
+N('c03-n-rename', 'C03', BASES, "            idx = self._get_indices(indices, tol=tol, indexing=indexing, axis=axis)\n\n            if broadcast:\n                self._setvalues_broadcast(idx, values, cast=cast)\n            else:\n                self._setvalues_ortho(idx, values, cast=cast)", "            positions = self._get_indices(indices, axis=axis, indexing=indexing, tol=tol)\n\n            if not broadcast:\n                self._setvalues_ortho(positions, values, cast=cast)\n            else:\n                self._setvalues_broadcast(positions, values, cast=cast)", 'rename + reorder keywords + invert if')
+N('c03-n-widen-reorder', 'C03', IDX, "    if values.dtype.kind == dtype.kind:\n        pass # same kind\n    elif values.dtype.kind == 'O':\n        pass # or already object", "    if values.dtype.kind == 'O':\n        pass # or already object\n    elif values.dtype.kind == dtype.kind:\n        pass # same kind", 'reordered independent tests')
